@@ -450,3 +450,32 @@ package git
 //gvc:  results rfs done
 //gvc:  ensures wrapped: rfs != nil && rfs.protectNTFS == w.filesystem.protectNTFS && rfs.protectHFS == w.filesystem.protectHFS
 //gvc:end
+
+// ---- sparse checkout, worktree half (C32): after a reset to a tree every
+// index entry marked skip-worktree is absent from the worktree.
+
+// inFiles: membership of the cleaned path in the path set (named, not
+// unfolded: filepath.Clean is outside the model).
+//gvc:func inFiles
+//gvc:  props C32
+//gvc:  theory int
+//gvc:  opt coarse
+//gvc:  opt frame args
+//gvc:  grants named: result == spec_infiles(files, strid(v))
+//gvc:end
+
+// resetWorktreeToTree, step 3: every skip-worktree entry the call covers
+// (all of them, or those named in files) is looked at with Lstat and, unless
+// that very Lstat says the path does not exist, removed together with the
+// directories it leaves empty -- one by one, no entry is passed over because
+// of what was learnt about another path.
+//gvc:func (*Worktree).resetWorktreeToTree
+//gvc:  props C32
+//gvc:  theory int
+//gvc:  opt coarse
+//gvc:  opt frame args
+//gvc:  requires nn: w != nil && w.filesystem != nil && w.r != nil
+//gvc:  loop 3 step handled: e.SkipWorktree && (len(files) == 0 || spec_infiles(filesMap, strid(e.Name))) ==> calls("rmFileAndDirsIfEmpty") == head(calls("rmFileAndDirsIfEmpty")) + 1 || (calls("Lstat") == head(calls("Lstat")) + 1 && spec_notexist(lastres("Lstat")))
+//gvc:  sink rmFileAndDirsIfEmpty#2 requires name: same_string(arg1, e.Name)
+//gvc:  sink Lstat requires name: same_string(arg0, e.Name)
+//gvc:end
